@@ -984,6 +984,12 @@ fn live_item_bytes(clock: &Clock, codec: &str, item: &str, i: u64) -> Vec<u8> {
         "req-idmax" => frame(&encode_cm(codec, &client_msg(clock, "req-idmax", i))),
         "req-past" => frame(&encode_cm(codec, &client_msg(clock, "req-past", i))),
         "dup" => frame(&encode_cm(codec, &client_msg(clock, "req", 1))),
+        // duplicates of a request that is still in flight (all frames arrive together, before any handler ran), then its answer or cancellation
+        "req-twice" => [frame(&encode_cm(codec, &client_msg(clock, "req", i))), frame(&encode_cm(codec, &client_msg(clock, "req", i)))].concat(),
+        "req-twice-cancel" => [frame(&encode_cm(codec, &client_msg(clock, "req", i))), frame(&encode_cm(codec, &client_msg(clock, "req", i))),
+                               frame(&encode_cm(codec, &client_msg(clock, "cancel", i)))].concat(),
+        "req-dup-past" => [frame(&encode_cm(codec, &client_msg(clock, "req", i))), frame(&encode_cm(codec, &client_msg(clock, "req-past", i))),
+                           frame(&encode_cm(codec, &client_msg(clock, "req", i + 100)))].concat(),
         "cancel-unknown" => frame(&encode_cm(codec, &client_msg(clock, "cancel", 4242))),
         "cancel-idmax" => frame(&encode_cm(codec, &client_msg(clock, "cancel-idmax", i))),
         "dl-10y" => dl(315_360_000),
@@ -1226,7 +1232,7 @@ pub fn run(a: &Args) -> Value {
                 json!({"kind": "garbage", "codec": codec, "dir": dir, "seed": rng.gen::<u32>(), "n": rng.gen_range(1..5u64), "mode": mode})
             }
             "live" => {
-                let pool = ["req", "req-idmax", "req-past", "dup", "cancel-unknown", "cancel-idmax", "dl-3y", "dl-10y", "dl-100y", "dl-10000y",
+                let pool = ["req", "req-idmax", "req-past", "dup", "req-twice", "req-twice-cancel", "req-dup-past", "cancel-unknown", "cancel-idmax", "dl-3y", "dl-10y", "dl-100y", "dl-10000y",
                             "dl-u64max", "dl-i64max", "dl-2p36ms"];
                 let bad = ["garbage", "truncated", "hugelen"];
                 let n = rng.gen_range(1..6);
